@@ -1,6 +1,6 @@
 //! C07: compilation is deterministic.
 //!
-//! request : C07.repeat \t <dx|vk|vkba|msl> \t <all|nopipeline> \t <gen:<seed> | clash:<seed> | share:<seed> | fix3:<seed> | inline:<seed> | cycle:<seed> | disk:<root>|<entry>
+//! request : C07.repeat \t <dx|vk|vkba|msl> \t <all|nopipeline> \t <gen:<seed> | clash:<seed> | share:<seed> | fix3:<seed> | inline:<seed> | cycle:<seed> | wave:<seed> | disk:<root>|<entry>
 //!                                                                  | diag:<family>:<seed> | src:<hex of the source>>
 //! observe : digest of sources + stages + metadata + pipeline state, or of the fully rendered diagnostic
 //!           (message, file, line, column, source excerpt, notes) followed by `|<stage>/<error variant>`
@@ -15,6 +15,8 @@ use crate::util::*;
 mod diag;
 #[path = "c07_cycle.rs"]
 mod cycle;
+#[path = "c07_wave.rs"]
+mod wave;
 
 /// One input of the property: files on disk or in memory, and whether the layout check is requested
 struct Input {
@@ -55,6 +57,9 @@ fn source_of(id: &str) -> Option<Input> {
     } else if let Some(seed) = id.strip_prefix("cycle:") {
         let seed: u64 = seed.parse().ok()?;
         Some(mem(cycle::cycle_program(&mut Rng::new(seed)).0))
+    } else if let Some(seed) = id.strip_prefix("wave:") {
+        let seed: u64 = seed.parse().ok()?;
+        Some(mem(wave::wave_program(&mut Rng::new(seed)).0))
     } else if let Some(seed) = id.strip_prefix("share:") {
         let seed: u64 = seed.parse().ok()?;
         Some(mem(share_program(&mut Rng::new(seed))))
@@ -467,14 +472,14 @@ fn unescape(s: &str) -> String {
 /// the text of a generated rejected program, for the failure report
 fn program_text(id: &str) -> String {
     let id = id.strip_prefix("defs:").and_then(|r| r.split_once('|')).map(|r| r.1).unwrap_or(id);
-    if !is_diag_stream(id) && !id.starts_with("resv:") && !id.starts_with("cycle:") && !id.starts_with("fix3:") {
+    if !is_diag_stream(id) && !id.starts_with("resv:") && !id.starts_with("cycle:") && !id.starts_with("fix3:") && !id.starts_with("wave:") {
         return String::new();
     }
     match source_of(id) {
         Some(input) => {
             let mut t = String::from("; program:");
             for (n, f) in &input.files {
-                t.push_str(&format!(" [{}] <<{}>>", n, clip(f, if id.starts_with("cycle:") || id.starts_with("fix3:") { 6000 } else { 1500 })));
+                t.push_str(&format!(" [{}] <<{}>>", n, clip(f, if id.starts_with("cycle:") || id.starts_with("fix3:") || id.starts_with("wave:") { 6000 } else { 1500 })));
             }
             t
         }
@@ -818,7 +823,7 @@ fn run_repeat_requests(lines: &[String], out: &mut Out, hist: &mut Hist) {
         let d0 = a.digest();
         // a panic is a C08 matter; for C07 it only has to be the same panic every time
         let mut fail = None;
-        let repeats = if is_diag_stream(&id) || id.starts_with("cycle:") { 8 } else { 5 };
+        let repeats = if is_diag_stream(&id) || id.starts_with("cycle:") || id.starts_with("wave:") { 8 } else { 5 };
         for k in 1..repeats {
             let b = compile_input(&input, t, &m);
             let d = b.digest();
@@ -857,6 +862,8 @@ fn run_repeat_requests(lines: &[String], out: &mut Out, hist: &mut Hist) {
             "source=inline-descriptor-groups"
         } else if id.starts_with("cycle:") {
             "source=call-cycles"
+        } else if id.starts_with("wave:") {
+            "source=implicit-parameter-kinds"
         } else if id.starts_with("diag:") {
             "source=diagnostics-generator"
         } else if id.starts_with("src:") {
@@ -1114,6 +1121,26 @@ pub fn run(args: &Args, out: &mut Out) {
         history_lines.push(format!("C07.history\t{}", items.join("\t")));
     }
     lines.extend(history_lines);
+    // several KINDS of implicit parameters in one function on Metal (lane index / lane count / mesh output / globals):
+    // the order inside every parameter list, argument list and entry point rests on required_globals.sort() alone.
+    // Seeds from a separate generator, appended last: every request above keeps its seed
+    {
+        let mut rng4 = Rng::new(args.seed ^ 0x3a7e_c07d_0004);
+        let nwave = args.n.map(|n| (n / 5).max(2)).unwrap_or(if args.thorough() { 300 } else { 30 });
+        for _ in 0..nwave {
+            let seed = rng4.next() >> 16;
+            let (_, shape) = wave::wave_program(&mut Rng::new(seed));
+            hist.add(&format!("wave-helpers={}", shape.helpers));
+            hist.add(if shape.mesh { "wave-pipeline=mesh+pixel" } else { "wave-pipeline=compute" });
+            hist.add(&format!("wave-lane-index-readers={}", shape.lane_index.min(3)));
+            hist.add(&format!("wave-lane-count-readers={}", shape.lane_count.min(3)));
+            hist.add(&format!("wave-default-arguments-reading-lane+global={}", shape.defaults.min(3)));
+            hist.add(&format!("wave-globals-initialised-from-lane-or-helper={}", shape.init_globals));
+            for t in ALL_TARGETS {
+                lines.push(format!("C07.repeat\t{}\tall\twave:{}", t.name(), seed));
+            }
+        }
+    }
     run_requests(&lines, out, &mut hist);
     out.stat(&format!(
         "{{\"requests\":{},\"repeats_in_process\":\"5 (accepted-program streams) / 8 (diagnostics streams)\",\"fresh_processes\":3,\"history\":\"each item alone in a fresh process vs 4 orders of the sequence in fresh processes vs the long-running harness process\",\"diag_families\":{},\"hist\":{}}}",
